@@ -32,19 +32,30 @@ func c16Earlier(r *Rand, k, mtu, n int) []PayCall {
 }
 
 // c16Observe writes the earlier calls to the input, replays them on ONE instance (and on its pristine
-// twin) and then observes the call under test on that same instance.
+// twin) and then observes the call under test on that same instance.  The observation is
+// `PayObs <n> PayObs*`: the call under test, then the earlier calls in order — every call of the
+// history is an (input, MTU) of the property, and the caller still holds what the earlier calls
+// returned (packets wait in a send queue), so their fragments are compared with their snapshots once
+// more AFTER the last call.
 func c16Observe(c *Case, mk func() payloader, earlier []PayCall, mtu int, in []byte) {
 	writeCalls(&c.I, earlier)
 	p, twin := mk(), mk()
+	recs := make([]*payRecord, 0, len(earlier))
 	for _, e := range earlier {
-		observePayDeferred(p, twin, e.MTU, e.Input)
+		recs = append(recs, observePayDeferred(p, twin, e.MTU, e.Input))
 	}
 	if len(earlier) > 0 {
 		c.Tag("reused-payloader")
 	} else {
 		c.Tag("fresh-payloader")
 	}
-	observePay(&c.O, p, twin, uint16(mtu), in)
+	last := observePayDeferred(p, twin, uint16(mtu), in)
+	last.write(&c.O)
+	c.O.Nat(len(recs))
+	for _, r := range recs {
+		r.stillStable()
+		r.write(&c.O)
+	}
 }
 
 func genSplit(mk func() payloader) func(x *Ctx) {
@@ -168,63 +179,97 @@ func init() {
 		}
 	})
 	register("c16.opusde", "C16", func(x *Ctx) {
-		one := func(in []byte) {
-			x.Case(func(c *Case) {
-				c.I.OBytes(in)
-				if len(in) == 0 {
-					c.Tag("nil-or-empty")
+		// `<obytes> <n> obytes*`: the payload under test, then the payloads the SAME OpusPacket has
+		// decoded before it (a receiver is kept per stream and handed every packet).  Half of the
+		// histories arrive in ONE receive buffer that is reused for every packet, the others in
+		// exactly-sized slices.
+		run := func(c *Case, hist [][]byte, in []byte) {
+			c.I.OBytes(in)
+			writeOBytesList(&c.I, hist)
+			if len(in) == 0 {
+				c.Tag("nil-or-empty")
+			}
+			c.Tag("history=" + string(rune('0'+min(len(hist), 9))))
+			var rx []byte
+			if len(hist) > 0 && c.R.Bool() {
+				rx = make([]byte, 0, 4096)
+				c.Tag("rx=one-reused-buffer")
+			}
+			give := func(b []byte) []byte {
+				if b == nil || rx == nil || len(b) > cap(rx) {
+					return cloneBytes(b)
 				}
-				pkt := &codecs.OpusPacket{}
-				var out []byte
-				var err error
-				var head, t0, t1 bool
-				if try(func() {
-					out, err = pkt.Unmarshal(in)
-					head = pkt.IsPartitionHead(in)
-					t0 = pkt.IsPartitionTail(false, in)
-					t1 = pkt.IsPartitionTail(true, in)
-				}) {
-					c.O.Panic().Bool(false).Bool(false).Bool(false)
-					return
-				}
-				if err != nil {
-					c.O.Err("other")
-				} else {
-					c.O.Ok().Bytes(out)
-				}
-				c.O.Bool(head).Bool(t0).Bool(t1)
-			})
+				return append(rx[:0], b...)
+			}
+			pkt := &codecs.OpusPacket{}
+			for _, h := range hist {
+				h := h
+				try(func() { pkt.Unmarshal(give(h)) }) //nolint
+			}
+			buf := give(in)
+			var out []byte
+			var err error
+			var head, t0, t1 bool
+			if try(func() {
+				out, err = pkt.Unmarshal(buf)
+				head = pkt.IsPartitionHead(buf)
+				t0 = pkt.IsPartitionTail(false, buf)
+				t1 = pkt.IsPartitionTail(true, buf)
+			}) {
+				c.O.Panic().Bool(false).Bool(false).Bool(false)
+				return
+			}
+			if err != nil {
+				c.O.Err("other")
+			} else {
+				c.O.Ok().Bytes(out)
+			}
+			c.O.Bool(head).Bool(t0).Bool(t1)
 		}
-		one(nil)
-		one([]byte{})
+		// earlier payloads: lengths from the classes longer / shorter / equal / tiny relative to the
+		// payload under test, and now and then nil or empty (rejected: the receiver keeps what it held)
+		earlier := func(r *Rand, k, n int) [][]byte {
+			hist := make([][]byte, 0, k)
+			for j := 0; j < k; j++ {
+				switch r.Intn(12) {
+				case 0:
+					hist = append(hist, nil)
+				case 1:
+					hist = append(hist, []byte{})
+				default:
+					ln := r.Pick(1, 2, 3, n, n+1, n+r.Range(1, 40), 2*n+1, r.Range(1, n+1), r.Range(1, n+1), r.Range(1, 1500))
+					hist = append(hist, r.Bytes(ln))
+				}
+			}
+			return hist
+		}
+		one := func(in []byte, k int) {
+			x.Case(func(c *Case) { run(c, earlier(c.R, k, len(in)), in) })
+		}
+		for k := 0; k <= 3; k++ {
+			one(nil, k)
+			one([]byte{}, k)
+		}
 		for b := 0; b < 256; b++ {
-			one([]byte{byte(b)})
+			one([]byte{byte(b)}, b%4)
+		}
+		// every length 1–40 after a longer, then a shorter payload (and the other orders)
+		for n := 1; n <= 40; n++ {
+			for _, sh := range [][]int{{n + 20, 1}, {1, n + 20}, {n, n}, {2 * n, n - 1}, {n + 1, n/2 + 1, n + 1}} {
+				n, sh := n, sh
+				x.Case(func(c *Case) {
+					var hist [][]byte
+					for _, l := range sh {
+						hist = append(hist, c.R.Bytes(l))
+					}
+					run(c, hist, c.R.Bytes(n))
+				})
+			}
 		}
 		for i, n := 0, x.N(2000, 100000); i < n; i++ {
 			x.Case(func(c *Case) {
 				in := c.R.Bytes(c.R.Size(2000, 1, 2))
-				c.I.OBytes(in)
-				pkt := &codecs.OpusPacket{}
-				// reuse: decode something else first
-				pkt.Unmarshal(c.R.Bytes(c.R.Intn(5))) //nolint
-				var out []byte
-				var err error
-				var head, t0, t1 bool
-				if try(func() {
-					out, err = pkt.Unmarshal(in)
-					head = pkt.IsPartitionHead(in)
-					t0 = pkt.IsPartitionTail(false, in)
-					t1 = pkt.IsPartitionTail(true, in)
-				}) {
-					c.O.Panic().Bool(false).Bool(false).Bool(false)
-					return
-				}
-				if err != nil {
-					c.O.Err("other")
-				} else {
-					c.O.Ok().Bytes(out)
-				}
-				c.O.Bool(head).Bool(t0).Bool(t1)
+				run(c, earlier(c.R, c.R.Pick(0, 1, 2, 2, 3, 4), len(in)), in)
 			})
 		}
 	})
